@@ -8,14 +8,34 @@ def unit_verus_memory(tier):
     return verus_memory.run(tier)
 
 
+def unit_kani_l2(tier, prop):
+    from .units import kani_l2
+    return kani_l2.run(tier, prop)
+
+
+def unit_kani_l0(tier, prop):
+    from .units import kani_l0
+    return kani_l0.run(tier, prop)
+
+
 UNITS = {
-    "verus_memory": unit_verus_memory,
+    "kani_l0": unit_kani_l0,
+    "verus_memory": lambda tier, prop: unit_verus_memory(tier),
+    "kani_l2": unit_kani_l2,
 }
 
 PROP_UNITS = {
-    "C08": ["verus_memory"],
-    "C09": ["verus_memory"],
+    "C01": ["kani_l2"],
+    "C02": ["kani_l2", "kani_l0"],
+    "C03": ["kani_l2"],
+    "C04": ["kani_l2"],
+    "C05": ["kani_l2"],
+    "C06": ["kani_l2", "verus_memory"],
+    "C07": ["kani_l0"],
+    "C08": ["verus_memory", "kani_l0"],
+    "C09": ["verus_memory", "kani_l2"],
     "C10": ["verus_memory"],
+    "C19": ["kani_l2", "verus_memory", "kani_l0"],
 }
 
 
@@ -41,7 +61,7 @@ def run(prop, tier, seed, t0):
         return 2
     obs, infos = [], []
     for u in PROP_UNITS[prop]:
-        o, i = UNITS[u](tier)
+        o, i = UNITS[u](tier, prop)
         obs += o
         infos.append((u, i))
     info = merge_info(infos)
